@@ -1,0 +1,169 @@
+//! Verification instrumentation. Only compiled with `--cfg vrl_verif`; never changes behaviour.
+//!
+//! * runtime: every [`Expr::resolve`] call is bracketed by an `Enter` / `Exit` event when a
+//!   tracer is active on the current thread (see `Expr::resolve`),
+//! * compile time: every `Compiler::compile_expr` records the span, type definition and
+//!   compile-time constant it computed for the expression.
+//!
+//! All state is thread-local, so concurrent runs log independently.
+#![allow(clippy::pedantic, missing_docs)]
+
+use std::cell::{Cell, RefCell};
+
+use super::state::TypeState;
+use super::{Context, Expression, ExpressionError, Resolved, TypeDef, expression::Expr};
+use crate::diagnostic::Span;
+use crate::value::Value;
+
+/// How an expression evaluation ended.
+#[derive(Debug, Clone, PartialEq)]
+pub enum Outcome {
+    Ok(Value),
+    Error(String),
+    Abort(Option<String>),
+    Return(Value),
+    Fallible,
+    Missing,
+}
+
+/// A snapshot of all runtime variables, sorted by name.
+pub type Vars = Vec<(String, Value)>;
+
+#[derive(Debug, Clone, PartialEq)]
+pub enum Event {
+    Enter {
+        kind: String,
+        /// `Display` rendering of the expression (only when detail is switched on).
+        detail: Option<String>,
+        /// Address of the compiled node (stable for the lifetime of the program).
+        addr: usize,
+        /// Variables, if they changed since the previous event.
+        vars: Option<Vars>,
+    },
+    Exit {
+        kind: String,
+        addr: usize,
+        outcome: Outcome,
+        vars: Option<Vars>,
+    },
+}
+
+/// What the compiler computed for one source expression.
+#[derive(Debug, Clone)]
+pub struct Compiled {
+    pub start: usize,
+    pub end: usize,
+    pub kind: String,
+    pub type_def: TypeDef,
+    pub constant: Option<Value>,
+}
+
+thread_local! {
+    static ACTIVE: Cell<bool> = const { Cell::new(false) };
+    static DETAIL: Cell<bool> = const { Cell::new(false) };
+    static SKIP_ONCE: Cell<bool> = const { Cell::new(false) };
+    static LOG: RefCell<Vec<Event>> = const { RefCell::new(Vec::new()) };
+    static LAST_VARS: RefCell<Option<Vars>> = const { RefCell::new(None) };
+    static COMPILE_ACTIVE: Cell<bool> = const { Cell::new(false) };
+    static COMPILED: RefCell<Vec<Compiled>> = const { RefCell::new(Vec::new()) };
+}
+
+/// Start recording runtime events on this thread.
+pub fn start_trace(detail: bool) {
+    ACTIVE.with(|a| a.set(true));
+    DETAIL.with(|d| d.set(detail));
+    SKIP_ONCE.with(|s| s.set(false));
+    LOG.with(|l| l.borrow_mut().clear());
+    LAST_VARS.with(|l| *l.borrow_mut() = None);
+}
+
+/// Stop recording and return the events recorded on this thread.
+pub fn stop_trace() -> Vec<Event> {
+    ACTIVE.with(|a| a.set(false));
+    SKIP_ONCE.with(|s| s.set(false));
+    LOG.with(|l| std::mem::take(&mut *l.borrow_mut()))
+}
+
+/// Start recording `compile_expr` results on this thread.
+pub fn start_compile_log() {
+    COMPILE_ACTIVE.with(|a| a.set(true));
+    COMPILED.with(|l| l.borrow_mut().clear());
+}
+
+/// Stop recording and return the `compile_expr` records of this thread.
+pub fn stop_compile_log() -> Vec<Compiled> {
+    COMPILE_ACTIVE.with(|a| a.set(false));
+    COMPILED.with(|l| std::mem::take(&mut *l.borrow_mut()))
+}
+
+pub(crate) fn should_trace() -> bool {
+    if !ACTIVE.with(Cell::get) {
+        return false;
+    }
+    // The traced wrapper re-enters `Expr::resolve` exactly once to run the original code.
+    !SKIP_ONCE.with(|s| s.replace(false))
+}
+
+fn changed_vars(ctx: &Context) -> Option<Vars> {
+    let now = ctx.state().verif_snapshot();
+    LAST_VARS.with(|l| {
+        let mut last = l.borrow_mut();
+        if last.as_ref() == Some(&now) {
+            None
+        } else {
+            *last = Some(now.clone());
+            Some(now)
+        }
+    })
+}
+
+pub(crate) fn traced(expr: &Expr, ctx: &mut Context) -> Resolved {
+    let kind = expr.as_str().to_owned();
+    let addr = std::ptr::from_ref(expr) as usize;
+    let detail = DETAIL.with(Cell::get).then(|| expr.to_string());
+    let vars = changed_vars(ctx);
+    LOG.with(|l| {
+        l.borrow_mut().push(Event::Enter {
+            kind: kind.clone(),
+            detail,
+            addr,
+            vars,
+        });
+    });
+
+    SKIP_ONCE.with(|s| s.set(true));
+    let result = expr.resolve(ctx);
+
+    let outcome = match &result {
+        Ok(v) => Outcome::Ok(v.clone()),
+        Err(ExpressionError::Error { message, .. }) => Outcome::Error(message.clone()),
+        Err(ExpressionError::Abort { message, .. }) => Outcome::Abort(message.clone()),
+        Err(ExpressionError::Return { value, .. }) => Outcome::Return(value.clone()),
+        Err(ExpressionError::Fallible { .. }) => Outcome::Fallible,
+        Err(ExpressionError::Missing { .. }) => Outcome::Missing,
+    };
+    let vars = changed_vars(ctx);
+    LOG.with(|l| {
+        l.borrow_mut().push(Event::Exit {
+            kind,
+            addr,
+            outcome,
+            vars,
+        });
+    });
+    result
+}
+
+pub(crate) fn compiled(span: Span, expr: &Expr, type_def: &TypeDef, state: &TypeState) {
+    if !COMPILE_ACTIVE.with(Cell::get) {
+        return;
+    }
+    let record = Compiled {
+        start: span.start(),
+        end: span.end(),
+        kind: expr.as_str().to_owned(),
+        type_def: type_def.clone(),
+        constant: expr.resolve_constant(state),
+    };
+    COMPILED.with(|l| l.borrow_mut().push(record));
+}
